@@ -13,8 +13,8 @@
 (* st = "run"  the diff of case c is being replayed, e events consumed     *)
 (*      "acc"  accepted: both appliers done after the last event, or the   *)
 (*             result was empty and the texts are identical                *)
-(*      "rej"  rejected; the step that rejects prints                      *)
-(*             <<"BAD", c, e, reason-forward, reason-reverse>>             *)
+(*      "rej"  rejected; the step that rejects reports (EMIT line)         *)
+(*             [t: "BAD", c, e, f: reason-forward, r: reason-reverse]      *)
 (* Every rejected diff is thereby named.  With Strict = TRUE (used to      *)
 (* confirm named cases, few records) `AllAccepted` is an invariant and     *)
 (* TLC itself reports the violation with the rejecting prefix as its       *)
@@ -36,6 +36,10 @@ VARIABLES c, e, st
 vars == <<old, new, fwd, rev, c, e, st>>
 
 Rec(k) == Trace[k]
+
+\* reports are single EMIT lines (JSON), collected by the check
+Report(x) == PrintT(<<"EMIT", ToJson(x)>>)
+Bad(k, n, wf, wr) == Report([t |-> "BAD", c |-> k, e |-> n, f |-> wf, r |-> wr])
 
 \* the law on the record: nothing returned <=> the texts are identical
 Judge0(r) ==
@@ -61,7 +65,7 @@ Load(k) ==
     /\ fwd' = Fresh
     /\ rev' = Fresh
     /\ st' = Judge0(Rec(k))
-    /\ (Judge0(Rec(k)) = "rej" => PrintT(<<"BAD", k, 0, Why0(Rec(k)), Why0(Rec(k))>>))
+    /\ (Judge0(Rec(k)) = "rej" => Bad(k, 0, Why0(Rec(k)), Why0(Rec(k))))
 
 Init == \E k \in 1..K :
           /\ k <= Len(Trace)
@@ -74,7 +78,7 @@ Init == \E k \in 1..K :
           /\ fwd = Fresh
           /\ rev = Fresh
           /\ st = Judge0(Rec(k))
-          /\ (Judge0(Rec(k)) = "rej" => PrintT(<<"BAD", k, 0, Why0(Rec(k)), Why0(Rec(k))>>))
+          /\ (Judge0(Rec(k)) = "rej" => Bad(k, 0, Why0(Rec(k)), Why0(Rec(k))))
 
 Events == Rec(c).ev
 Event  == Events[e + 1]
@@ -91,6 +95,11 @@ ReplayEvent ==
     \/ x[1] = EvFinish /\ Finish
     \/ x[1] = EvJunk   /\ Junk
 
+\* reason reported for one applier: why it failed, or that the events ran out before it was done,
+\* or "" if this applier had no objection so far (the other one rejected)
+WhyOf(a, atEnd) == IF a.phase = "fail" THEN a.why
+                   ELSE IF atEnd /\ a.phase # "done" THEN "diff ends early" ELSE ""
+
 Step ==
     /\ st = "run"
     /\ e < Len(Events)
@@ -101,17 +110,15 @@ Step ==
              ELSE IF e' < Len(Events) THEN "run"
              ELSE IF fwd'.phase = "done" /\ rev'.phase = "done" THEN "acc"
              ELSE "rej"
-    /\ (st' = "rej" => PrintT(<<"BAD", c, e',
-                                IF fwd'.phase = "fail" THEN fwd'.why ELSE IF fwd'.phase = "done" THEN "" ELSE "diff ends early",
-                                IF rev'.phase = "fail" THEN rev'.why ELSE IF rev'.phase = "done" THEN "" ELSE "diff ends early">>))
-    /\ ((st' = "acc" /\ fwd'.notes # {}) => PrintT(<<"DRIFT", c, fwd'.notes>>))
+    /\ (st' = "rej" => Bad(c, e', WhyOf(fwd', e' >= Len(Events)), WhyOf(rev', e' >= Len(Events))))
+    /\ ((st' = "acc" /\ fwd'.notes # {}) => Report([t |-> "DRIFT", c |-> c, notes |-> fwd'.notes]))
 
 \* a non-empty result without any event cannot be a diff
 Stuck ==
     /\ st = "run"
     /\ e >= Len(Events)
     /\ st' = "rej"
-    /\ PrintT(<<"BAD", c, e, "diff ends early", "diff ends early">>)
+    /\ Bad(c, e, "diff ends early", "diff ends early")
     /\ UNCHANGED <<old, new, fwd, rev, c, e>>
 
 TraceReset ==
